@@ -19,7 +19,7 @@ ASSUMPTIONS = ['unitless (valueunit None) spectra stored in m / um / nm / angstr
                "Simpson's rule is exercised only with uniformly spaced centres and data, as the property scopes it"]
 PLAN = {'quick': {'gen': 8}, 'thorough': {'gen': 16, 'tests': 1, 'docs': 1}}
 REQUIRED_BUCKETS = ['bin:narrow-line', 'crop:outside-data', 'bin:integer-centres', 'values:small-int', 'bin:zero-spectrum', 'integrate:bright-band-below-bounds', 'wave:integer-dtype', 'unit:m', 'unit:um', 'unit:nm', 'unit:angstrom', 'bin:unit-same', 'bin:unit-differs', 'integrate:trapz', 'integrate:simps', 'bin:trapz', 'bin:simps', 'ends:symmetric', 'ends:inside',
-                    'preserve:True', 'preserve:False', 'grid:nonuniform', 'op:crop', 'op:trim', 'op:pad', 'op:append', 'value:narrow-dtype', 'resample:short-narrow', 'value:signed',
+                    'preserve:True', 'preserve:False', 'grid:nonuniform', 'op:crop', 'op:trim', 'op:pad', 'op:append', 'value:narrow-dtype', 'resample:short-narrow', 'value:signed', 'bin:narrow-float-centres',
                     'op:resample', 'op:raised', 'history:len>=6']
 REQUIRED_ANCHORS = ['probe:Spectrum.crop', 'probe:Spectrum.trim', 'probe:Spectrum.pad', 'probe:Spectrum.append',
                     'probe:Spectrum.resample', 'anchor:Spectrum.integrate', 'anchor:Spectrum.bin', 'anchor:Spectrum.ends']
@@ -340,6 +340,29 @@ def workload(ctx, lentil):
             # (truncated mid-points can coincide with their neighbours: the sampler then refuses the repeated abscissae - same mechanism)
             ctx.check(False, 'bin:count', 'bin|integer-centres|simps|midpoints-truncated' if (method == 'simps' and fractional)
                       else f'bin|integer-centres|raises={type(e).__name__}', f'{type(e).__name__}: {e}', desc)
+        # centres held in single / half precision (a wavelength column read from a float32 file): the same numbers, the same bins
+        ctx.case(dict(desc, centres='narrow-float'), ['bin:narrow-float-centres'])
+        try:
+            if i % 2:
+                # half precision: whole-number centres above 4096 (exact in float16, whose spacing is 4 there) an odd multiple of 4 apart,
+                # so that the mid-points between them are NOT float16 numbers
+                w2 = np.arange(4000., 8200., 4.)
+                sp2 = S(w2, rng.uniform(0.5, 2, size=w2.size) if i % 4 == 1 else 1e-3 * w2 + 0.3)
+                c64 = 4096. + 4 * (2 * int(rng.integers(1, 8)) + 1) * np.arange(int(rng.integers(3, 8))) + 4 * int(rng.integers(0, 200))
+                c_n, mth_ = c64.astype(np.float16), method
+            else:
+                # single precision: arbitrary centres (trapezoid rule: any spacing)
+                sp2 = sp
+                c_n = np.sort(rng.uniform(float(w[1]), float(w[-2]), size=int(rng.integers(3, 8)))).astype(np.float32)
+                c64, mth_ = c_n.astype(float), 'trapz'
+            if np.array_equal(c_n.astype(float), c64) and np.all(np.diff(c64) > 0):
+                b_r = np.asarray(sp2.bin(c64, interp_method=mth_, ends=ends, preserve_power=preserve), float)
+                b_n = np.asarray(sp2.bin(c_n, interp_method=mth_, ends=ends, preserve_power=preserve), float)
+                ctx.close('bin:exact-linear', b_n, b_r, 1e-10, f'bin|narrow-float-centres|{c_n.dtype.name}',
+                          'bins for centres held in single / half precision differ from the bins for the same numbers as doubles',
+                          dict(desc, dtype=c_n.dtype.name, centres=c64.tolist()), scale=float(np.max(np.abs(b_r))) + 1e-300)
+        except Exception as e:
+            ctx.check(False, 'bin:count', f'bin|narrow-float-centres|raises={type(e).__name__}', f'{type(e).__name__}: {e}', desc)
         # integer / boolean VALUES: integrals and bins as for the same numbers held as floats
         dtv = [np.uint8, bool, np.int16, np.uint16, np.int8, np.float32, np.float16][i % 7]
         if dtv is bool:
